@@ -181,6 +181,9 @@ def _run(chk, wd, proved):
     hostile = [(b'RESULT ' + b'9' * 30 + b'\n', b'OK'),                (b'RESULT ' + b'1' * 4301 + b'\n', b'READY\n'), (b'RESULT ' + b'0' * 40 + b'2\n', b'OK', b'READY\n'),
                (b'\x00' * 50,), (b'READY\n' * 5,), (b'RESULT 2\nOK' * 3,),
                (b'RESULT 00\n',), (b'RESULT 000000\n',),
+               # headers that differ from a valid one ONLY in the first 7 bytes, then valid digits and a valid body
+               (b'result 2\n', b'OK', b'READY\n'), (b'RESULT:2\n', b'OK'), (b'XXXXXXX2\n', b'OK', b'READY\n'), (b'RESULT\t2\n', b'OK'),
+               (b'RESULt 2\n', b'OK'), (b'\x00\x01\x02\x03\x04\x05\x062\n', b'OK'), (b'READY\n 2\n', b'OK'), (b'RESULT_2\nOK',),
                # result bodies the default handler must reject: trailing LF, other case, garbage, NUL/high bytes
                (b'RESULT 3\n', b'OK\n', b'READY\n'), (b'RESULT 2\n', b'ok'), (b'RESULT 2\n', b'Ok', b'READY\n'),
                (b'RESULT 4\n', b'\x00\xff\x80\n'), (b'RESULT 2\n', b'\xff\xfe', b'READY\n'), (b'RESULT 3\n', b' OK'), (b'RESULT 4\n', b'OKOK'), (b'RESULT 1\n', b'O', b'K'),
@@ -424,6 +427,37 @@ def _run(chk, wd, proved):
                                'consequence': 'a write(2)/read(2) on it from the main loop sleeps until the child acts: '
                                               'an envelope larger than the free pipe space, or a listener that does not '
                                               'read its stdin, stops supervisord (see the history replays of family S/T)'})
+
+    # ---------------- family M: the dispatchers the REAL EventListenerConfig.make_dispatchers builds (every spawn of every
+    #                  family goes through it): each is registered under the descriptor it reads/writes, which is the
+    #                  pipe end of its channel; servicing stderr first must not take bytes pending on stdout
+    wm = drv.World(1, 0)
+    for op in drv.SETUPS['ACK']:
+        wm.apply(op)
+    pm = wm.pool.procs[0]
+    chk.dist('M')
+    want = {pm.pipes['stdout']: ('stdout', 'PEventListenerDispatcher'), pm.pipes['stderr']: ('stderr', 'POutputDispatcher'),
+            pm.pipes['stdin']: ('stdin', 'PInputDispatcher')}
+    for key, d in pm.dispatchers.items():
+        ok = d.fd == key and key in want and (d.channel, type(d).__name__) == want[key]
+        if not ok:
+            chk.violation({'kind': 'make_dispatchers registered a dispatcher under a descriptor that is not the one it uses',
+                           'registered_under': key, 'dispatcher_fd': d.fd, 'channel': getattr(d, 'channel', None),
+                           'class': type(d).__name__, 'pipes': {k: v for k, v in pm.pipes.items()}})
+    if sorted(pm.dispatchers) != sorted(want):
+        chk.violation({'kind': 'make_dispatchers did not create one dispatcher per parent-side pipe end',
+                       'dispatchers': sorted(pm.dispatchers), 'pipes': {k: v for k, v in pm.pipes.items()}})
+    wm.options.reads[pm.pipes['stdout']] = b'READY\n'          # pending on stdout
+    wm.options.reads[pm.pipes['stderr']] = b'some diagnostics\n'  # and something on stderr
+    pm.dispatchers[pm.pipes['stderr']].handle_read_event()       # the main loop happens to service stderr first
+    pm.dispatchers[pm.pipes['stdout']].handle_read_event()
+    if pm.listener_state != env.EventListenerStates.READY:
+        chk.violation({'kind': "servicing a listener's stderr consumed protocol bytes pending on its stdout",
+                       'history': ['spawn', 'running', "stdout has 'READY\\n' pending, stderr has output",
+                                   'read event on stderr', 'read event on stdout'],
+                       'listener_state': pm.listener_state, 'expected': env.EventListenerStates.READY,
+                       'stderr_dispatcher_fd': pm.dispatchers[pm.pipes['stderr']].fd, 'stderr_fd': pm.pipes['stderr'],
+                       'stdout_fd': pm.pipes['stdout']})
 
     # ---------------- compare with the model inside Coq
     import time
